@@ -103,7 +103,12 @@ def cross_engine_requests(prog, rels, leaves, stats, env_engines=()):
             if e is b.engine:
                 continue
             ident = e.make_join_identity_relation()
+            from lsst.daf.relation import Join as _Join
+
+            moved = ident.transferred_to(b.engine)
             for name, call in (
+                ("Join().partial(relation).apply(identity.transferred_to(relation's engine), preferred_engine=identity's engine)", lambda: _Join().partial(b).apply(moved, preferred_engine=e)),
+                ("Join().partial(relation, is_lhs=True).apply(identity.transferred_to(relation's engine), preferred_engine=identity's engine, transfer=True)", lambda: _Join().partial(b, is_lhs=True).apply(moved, preferred_engine=e, transfer=True)),
                 ("identity.join(relation)", lambda: ident.join(b)),
                 ("relation.join(identity)", lambda: b.join(ident)),
                 ("identity.join(relation, backtrack=False)", lambda: ident.join(b, backtrack=False)),
